@@ -272,7 +272,16 @@ def wl_counting(ctx, rng, case):
             g = mk2()
             n2 = rng.randint(1, 9)
             k2 = rng.choice(keys)
-            g.add(k2, n2)
+            if rng.random() < 0.3:
+                # an argument whose counters are all back at 0 while its element total is not (its cells were pinned at the 32-bit limit in between)
+                lim = rng.choice([2**31 - 1, 2**31, 2**32])
+                if rng.random() < 0.5:
+                    g.add(k2, lim), g.add(k2, n2), g.remove(k2, lim)
+                else:
+                    g.remove(k2, lim + 1), g.add(k2, lim + 1 + n2)
+                ctx.count("joins_with_an_argument_that_went_through_the_cell_limits")
+            else:
+                g.add(k2, n2)
             f.join(g)
             out[k2] += n2
             case.op("join", k2, n2)
